@@ -287,9 +287,19 @@ def flatten_collaborators(tree: ast.Module, foreign: set | None = None) -> int:
             # exactly one instantiation, `self.<a> = C(...)` as a statement of O.__init__
             calls = [n for n in ast.walk(tree) if isinstance(n, ast.Call) and isinstance(n.func, ast.Name) and n.func.id == cname]
             refs = [n for n in ast.walk(tree) if isinstance(n, ast.Name) and n.id == cname and isinstance(n.ctx, ast.Load)]
-            if len(calls) != 1:
+            if not calls:
                 continue
-            call = calls[0]
+            # one instantiation in O.__init__ (`self.<a> = C(...)`); further ones are accepted only as re-creations
+            # `self.<a> = C(...)` (a statement of a method of O) of the same attribute - see `extra_sites` below
+            init_calls = []
+            for oc_ in classes.values():
+                for m_ in oc_.body:
+                    if isinstance(m_, ast.FunctionDef) and m_.name == "__init__" and oc_ is not cls:
+                        init_calls += [st_.value for st_ in m_.body if isinstance(st_, (ast.Assign, ast.AnnAssign)) and any(st_.value is c_ for c_ in calls)]
+            if len(init_calls) != 1:
+                continue
+            call = init_calls[0]
+            other_calls = [c_ for c_ in calls if c_ is not call]
             site = None
             for ocls in classes.values():
                 if ocls is cls:
@@ -323,8 +333,48 @@ def flatten_collaborators(tree: ast.Module, foreign: set | None = None) -> int:
                 continue
             ocls, oinit, idx, stmt, attr = site
             owner_self = oinit.args.args[0].arg
+            # `self.<attr> = replace(self.<attr>, f=v, ..)` (dataclasses.replace / copy.replace) is the constructor called with
+            # the init fields of the old object and the changes: rewritten to that constructor call, then treated as a
+            # re-creation (the synthesised __init__ also re-runs the default_factory of init=False fields, as replace does)
+            if "__init__" in mem.methods:
+                ip_ = [a_.arg for a_ in mem.methods["__init__"].args.args[1:] + mem.methods["__init__"].args.kwonlyargs]
+                for m_ in ocls.body:
+                    if not isinstance(m_, (ast.FunctionDef, ast.AsyncFunctionDef)) or m_ is oinit:
+                        continue
+                    for st_ in ast.walk(m_):
+                        v_ = st_.value if isinstance(st_, ast.Assign) and len(st_.targets) == 1 else None
+                        if isinstance(v_, ast.Call) and (ast.unparse(v_.func) in ("replace", "dataclasses.replace", "copy.replace")) and len(v_.args) == 1 and isinstance(v_.args[0], ast.Attribute) and v_.args[0].attr == attr and isinstance(st_.targets[0], ast.Attribute) and st_.targets[0].attr == attr and all(k_.arg in ip_ for k_ in v_.keywords):
+                            given_ = {k_.arg for k_ in v_.keywords}
+                            kws_ = [ast.keyword(arg=p_, value=ast.copy_location(ast.Attribute(value=copy.deepcopy(v_.args[0]), attr=p_, ctx=ast.Load()), v_)) for p_ in ip_ if p_ not in given_] + list(v_.keywords)
+                            synth_ = ast.copy_location(ast.Call(func=ast.copy_location(ast.Name(id=cname, ctx=ast.Load()), v_.func), args=[], keywords=kws_), v_)
+                            ast.fix_missing_locations(synth_)
+                            st_.value = synth_
+                            other_calls.append(synth_)
+            # re-creations: `self.<attr> = C(...)` as a statement (at any depth) of another method of the owner
+            extra_sites = []
+            bad_extra = False
+            for oc_ in other_calls:
+                found_ = None
+                for m_ in ocls.body:
+                    if not isinstance(m_, (ast.FunctionDef, ast.AsyncFunctionDef)) or m_ is oinit or not m_.args.args:
+                        continue
+                    for par_ in ast.walk(m_):
+                        for fld_ in ("body", "orelse", "finalbody"):
+                            lst_ = getattr(par_, fld_, None)
+                            if isinstance(lst_, list):
+                                for i_, st_ in enumerate(lst_):
+                                    if isinstance(st_, ast.Assign) and st_.value is oc_ and len(st_.targets) == 1 and isinstance(st_.targets[0], ast.Attribute) and st_.targets[0].attr == attr and isinstance(st_.targets[0].value, ast.Name) and st_.targets[0].value.id == m_.args.args[0].arg:
+                                        found_ = (m_, lst_, st_)
+                if found_ is None:
+                    bad_extra = True
+                    break
+                extra_sites.append((oc_, found_))
+            if bad_extra:
+                continue
+            if other_calls and (mem.methods.get("__init__") is None or any(isinstance(n_, ast.Name) and n_.id == owner_self and False for n_ in [])):
+                continue
             # the class name is used for nothing else at run time (annotations are strings under __future__ annotations)
-            runtime_refs = [n for n in refs if n is not call.func and not _in_annotation(tree, n)]
+            runtime_refs = [n for n in refs if n is not call.func and not any(n is oc_.func for oc_ in other_calls) and not _in_annotation(tree, n)]
             if runtime_refs:
                 continue
             # every other use of <x>.<a> is <x>.<a>.<member>
@@ -332,8 +382,9 @@ def flatten_collaborators(tree: ast.Module, foreign: set | None = None) -> int:
             uses = [n for n in ast.walk(tree) if isinstance(n, ast.Attribute) and n.attr == attr]
             outer = {id(n.value): n for n in ast.walk(tree) if isinstance(n, ast.Attribute) and isinstance(n.value, ast.Attribute) and n.value.attr == attr}
             okuse = True
+            extra_targets = {id(fs_[2].targets[0]) for _oc, fs_ in extra_sites}
             for u in uses:
-                if u is (stmt.targets[0] if isinstance(stmt, ast.Assign) else stmt.target):
+                if u is (stmt.targets[0] if isinstance(stmt, ast.Assign) else stmt.target) or id(u) in extra_targets:
                     continue
                 o = outer.get(id(u))
                 if o is None or o.attr not in members or isinstance(u.ctx, ast.Store):
@@ -393,6 +444,30 @@ def flatten_collaborators(tree: ast.Module, foreign: set | None = None) -> int:
             for s in new_stmts:
                 ast.fix_missing_locations(s)
             oinit.body[idx : idx + 1] = new_stmts or [ast.copy_location(ast.Pass(), stmt)]
+            # re-creations: every argument is evaluated into a temporary first (they may read the fields that are about
+            # to be overwritten), then the constructor body runs on the owner's flattened fields
+            for xi_, (oc_, (m_, lst_, st_)) in enumerate(extra_sites):
+                b2 = _bind_args(init, oc_)
+                if b2 is None:
+                    raise_flag = True
+                    continue
+                amap2, order2 = b2
+                msel = m_.args.args[0].arg
+                pre2 = []
+                names2: dict = {}
+                for p_ in order2:
+                    ln_ = f"__co{k}x{xi_}_{p_}"
+                    pre2.append(ast.copy_location(ast.Assign(targets=[ast.Name(id=ln_, ctx=ast.Store())], value=amap2[p_]), st_))
+                    names2[p_] = ln_
+                for ln_ in {n.id for n in ast.walk(init) if isinstance(n, ast.Name) and isinstance(n.ctx, ast.Store)}:
+                    names2[ln_] = f"__co{k}x{xi_}_{ln_}"
+                rw2 = _SelfRewrite(init.args.args[0].arg, msel, attr, mem, names2, owner_fields)
+                body2 = [rw2.visit(copy.deepcopy(b_)) for b_ in _strip_doc(init.body) if not (owner_fields and isinstance(b_, (ast.Assign, ast.AnnAssign)) and isinstance((b_.targets[0] if isinstance(b_, ast.Assign) else b_.target), ast.Attribute) and (b_.targets[0] if isinstance(b_, ast.Assign) else b_.target).attr in owner_fields)]
+                new2 = pre2 + body2
+                for s2 in new2:
+                    ast.fix_missing_locations(s2)
+                j_ = next(i_ for i_, x_ in enumerate(lst_) if x_ is st_)
+                lst_[j_ : j_ + 1] = new2
             # methods
             for mname, m in mem.methods.items():
                 if mname == "__init__":
